@@ -35,8 +35,10 @@ man = dict(
              kind_free_text="contract-cut path executor: the real function is re-read from /repo on every run, loops are cut at sidecar invariants, "
                             "CPython runs it on z3-backed proxies, every pre/inv/post clause is an obligation for z3 (cvc5 on unknown)"),
         dict(name="pyvc.frame", path="pyvc/frame.py", serves_properties=["C18"], kind_free_text="conservative may-alias/may-mutate analysis discharging `modifies` clauses"),
-        dict(name="symmilp", path="symmilp/", serves_properties=[], kind_free_text="bounded stand-in: real encoders run on a recording back end; z3 decides forall-solver-outcome obligations per instance"),
-        dict(name="rc", path="rc/", serves_properties=[], kind_free_text="bounded stand-in: executable contracts on the real API over an exhaustive small universe vs brute-force oracles"),
+        dict(name="symmilp", path="symmilp/", serves_properties=sorted(f[2:5] for f in os.listdir(os.path.join(ROOT, "symmilp")) if f.startswith("s_C") and f.endswith(".py")),
+             kind_free_text="bounded stand-in: the real encoders build the model on the real HiGHS object, the LP is read back and z3 decides forall-solver-outcome obligations per instance"),
+        dict(name="rc", path="rc/", serves_properties=sorted(set(f[2:5] for f in os.listdir(os.path.join(ROOT, "rc")) if f.startswith("p_C") and f.endswith(".py")) | {"C13"}),
+             kind_free_text="bounded stand-in: executable contracts on the real API over an exhaustive small universe vs brute-force oracles (solver calls capped at 120 s; a capped case is UNDECIDED)"),
     ],
     checks=checks,
     not_applicable=na,
